@@ -124,6 +124,8 @@ theorem linesWT_decomp (ls : List Bytes) (last : Bytes) (hls : ∀ l ∈ ls, Lin
 /-- content that is empty or ends with `\n` -/
 def EndsLF (c : Bytes) : Prop := lacksEol c = false
 
+instance (c : Bytes) : Decidable (EndsLF c) := by unfold EndsLF; infer_instance
+
 theorem lacksEol_append_LF (c : Bytes) : lacksEol (c ++ [LF]) = false := by
   simp [lacksEol]
 
